@@ -1631,6 +1631,37 @@ theorem C10_override_does_not_depend_on_the_header (co : Str → Str) (a b : Acc
   · rw [C10_roundtrip co b hwfb hsb steps hsteps, hq]
     exact key b _ _
 
+/-- `MsgMeta.OriginalFrom` (what the source saw in MAIL FROM) set to anything -/
+def withOriginalFrom (a : Accepted) (o : Str) : Accepted :=
+  { a with qmeta := { a.qmeta with msgMeta := { a.qmeta.msgMeta with originalFrom := o } } }
+
+/-- **The sender handed over does not depend on the original sender** (round 11).  A message whose sender
+was rewritten before the queue - it arrived with the null reverse-path (`o = 0`: `OriginalFrom == ""`, also a
+source that never set the field) or with any other address - is handed to the next hop with the sender the
+queue ACCEPTED (`QueueMetadata.From`), in the first attempt, in every retry and after every restart:
+`Queue.deliver` passes `meta.From` to `Target.Start`, never anything derived from `MsgMeta.OriginalFrom`
+(which only decides whether, and under which `To:`, a failure report is written). -/
+theorem C10_sender_handed_does_not_depend_on_the_original_sender (co : Str → Str) (a : Accepted) (o : Str)
+    (hwf : ∀ f ∈ a.hdr, WFField f) (hs : EnvelopeSafe co a) (steps : List Step) (hsteps : ∀ st ∈ steps, StepOK st) :
+    ∀ s ∈ seens (run genVis co (withOriginalFrom a o) steps).2, s.sender = a.qmeta.sender := by
+  have hs' : EnvelopeSafe co (withOriginalFrom a o) := ⟨hs.sender, hs.to, hs.orc⟩
+  have key : ∀ (c : Accepted) (to : List Str) (l : List ((List Str → Bool) × (List Str → List Str))),
+      ∀ s ∈ spec c to l, s.sender = c.qmeta.sender := by
+    intro c to l
+    induction l generalizing to with
+    | nil => intro s hs; simp [spec] at hs
+    | cons x rest ih =>
+      obtain ⟨acc, next⟩ := x
+      intro s hs
+      simp only [spec, List.mem_cons] at hs
+      rcases hs with rfl | hs
+      · rfl
+      · split at hs
+        · simp at hs
+        · exact ih _ s hs
+  rw [C10_roundtrip co (withOriginalFrom a o) hwf hs' steps hsteps]
+  exact key (withOriginalFrom a o) _ _
+
 /-! ## non-vacuity -/
 
 /-- "Subject: hi" CRLF SP "there" CRLF - a folded field -/
